@@ -299,6 +299,11 @@ def binop(op, a, b):
     if op == "*":
         return mul(a, b)
     ca, cb = const_value(a), const_value(b)
+    if op == "/" and cb not in (None, 0) and ca is None:
+        # exact division of a polynomial all of whose coefficients are multiples of the constant
+        items = poly_items(a)
+        if items and all(k % cb == 0 for _, k in items):
+            return _from_poly({m: k // cb for m, k in items})
     if ca is not None and cb is not None:
         try:
             if op == "/":
